@@ -33,3 +33,22 @@ Definition go_call (fp : bytes) (chain : list bytes) (trusted : bool) : outcome 
          | Some want => if verify want chain then Sent else RefusedNoMatch
          end
   end.
+
+(** A call may be led to several servers one after the other (the HTTP client
+    follows redirects): every connection is a connection of this call and is
+    decided by [go_call] on ITS peer.  [hops]: the servers in the order the
+    client is sent to them, each with the chain it presents and whether
+    ordinary validation would accept it.  A refusal ends the call. *)
+Fixpoint go_hops (fp : bytes) (hops : list (list bytes * bool)) : list outcome :=
+  match hops with
+  | [] => []
+  | (chain, trusted) :: r =>
+      match go_call fp chain trusted with
+      | Sent => Sent :: go_hops fp r
+      | o => [o]
+      end
+  end.
+Definition is_sent (o : outcome) : bool := match o with Sent => true | _ => false end.
+(** which of the servers receive a request *)
+Definition hops_hit (fp : bytes) (hops : list (list bytes * bool)) : list bool :=
+  let out := map is_sent (go_hops fp hops) in out ++ repeat false (length hops - length out).
